@@ -131,6 +131,10 @@ func (e *Engine) runUnits(names []string, opts SolveOpts) []*UnitResult {
 			defer wg.Done()
 			sem <- struct{}{}
 			defer func() { <-sem }()
+			if n == "bv:attrsBitmap" {
+				results[i] = e.bvProof()
+				return
+			}
 			mu.Lock()
 			r := e.buildUnit(n)
 			mu.Unlock()
